@@ -20,13 +20,17 @@ _EP_ASSUME = [
 PROPS = {
     "C12": dict(
         suite="epochs",
-        modules=["CantoVerif.Props.C12"],
+        modules=["CantoVerif.Props.C12", "CantoVerif.Bridge.EpochsConds"],
         theorems=[
             "CV.Epochs.hook_order", "CV.Epochs.calls_cases", "CV.Epochs.start_at_first_block_not_before", "CV.Epochs.start_history",
             "CV.Epochs.tick_iff", "CV.Epochs.no_tick_unchanged", "CV.Epochs.at_most_one_per_block", "CV.Epochs.wf_advance",
             "CV.Epochs.start_time_formula", "CV.Epochs.never_early", "CV.Epochs.never_early_history", "CV.Epochs.consecutive",
             "CV.Epochs.initGenesis_keeps_start", "CV.Epochs.initGenesis_unset_starts_now",
             "CV.Epochs.clockInv_fresh", "CV.Epochs.c12_monitors_model", "CV.Epochs.beginBlock_ok", "CV.Epochs.beginBlock_of_runCalls",
+            # translator tie: the start / end conditions of BeginBlocker and the right-hand sides of StartInitialEpoch / EndEpoch,
+            # regenerated from the source by factx (conds.go), are the model's by rfl
+            "CV.Bridge.Epochs.shouldStart_bridge", "CV.Bridge.Epochs.shouldEnd_bridge", "CV.Bridge.Epochs.startInitial_bridge",
+            "CV.Bridge.Epochs.endEpoch_bridge",
         ],
         comps={"outcome", "resp", "infos"},
         assumptions=_EP_ASSUME,
